@@ -119,7 +119,7 @@ func c20r1(w *World, rr *RuleRun) {
 		})
 		// a consistent excuse flag must exist
 		ps, err := a.rateParams(w, site)
-		rr.At(w, site, "single rate flag excuses unrated writes", err == "" , fmt.Sprintf("flag candidates: %v %s", paramNames(ps), err))
+		rr.At(w, site, "single rate flag excuses unrated writes", err == "", fmt.Sprintf("flag candidates: %v %s", paramNames(ps), err))
 		if blockInCycle(site.Block()) {
 			rr.At(w, site, "socket write not in a loop", false, "the write site is inside a loop: one acquisition could cover several writes")
 		} else {
